@@ -1,7 +1,8 @@
 PROP = dict(
     module="M3d.Props.C03",
     corr=dict(quick=500, thorough=3000),
-    gen=[],
+    gen=["Kernels"],
+    tie_modules=["M3d.Lemmas.KernelsTieBounded"],
     corr_theorems=(
         "kind `tree` compares Min()/Max()/BoundsValid/Contains of the REAL solid built by the library's constructors with "
         "SolidExpr.bounds/contains of the model (M3d.Bd.SolidExpr.eval) on the same expression and points — mode q at Rat (the instance "
@@ -22,6 +23,11 @@ PROP = dict(
         "nodes per constructor, negative scales, disjoint intersections, no-cut evaluations per wrapper, shell points per leaf type"
     ),
     trusted=[
+        "regenerated, not hand-written: lean/M3d/Gen/Kernels.lean (Go->Lean translator harness/hlib/go2lean, run on the current "
+        "source on every check); M3d.KernelsTie.Bounded.* re-prove against it that Min()/Max() of Sphere, Capsule, Cylinder, Cone and "
+        "Torus (with circleAxisBound and its variable array index), Rect.Contains, Sphere.Contains and LinearConstraint.Contains are the "
+        "boxes and membership tests of the primitive leaves (sphereS, capsuleBox, cylinderBox, coneBox, torusBox, inB, "
+        "sphereContainsSqrt, polyContains) of the C03 expression trees",
         "modelled, not verified: float64 as an ordered field (mode q is exact by construction of the inputs; mode f re-runs the same model at IEEE doubles and must agree bit for bit, signed zeros identified)",
         "opaque leaves (Cylinder/Cone/Torus/Capsule Contains, Triangle, toolbox ScrewSolid, Teardrop2D/3D, SpurGear/HelicalGear, involute profile, LineJoin, RadialCurve, TriangularLine/Ball, HeightMap, RectSet, Ramp, bitmap, mesh solids): their Contains is a function parameter; the hypothesis `Bounded leaf` of bounded_sound is TESTED on the shell stream (kind shell) and is an assumption, not a theorem",
         "SDF / Collider / Metaball operands enter through their contracts (SDFBoxed, ColOK, MBBounded) — assumptions about the operand, used only by the does-not-cut theorems; boundedness of the derived solids needs none of them",
